@@ -279,7 +279,7 @@ func extraOf(pk []byte, burn, maxSize uint32, prec uint8, ua string, tail []byte
 func c25Gen(r *Rng, tier string, emit func(string)) {
 	n := 5000
 	if tier == "thorough" {
-		n = 40000
+		n = 200000
 	}
 	pk := r.Bytes(33)
 	pk[0] = 2
@@ -354,6 +354,18 @@ func c25Gen(r *Rng, tier string, emit func(string)) {
 			emitV(cfg(1111, mv), 5, 6000, ver, good)
 		}
 	}
+	// 4b. the header-only rules (self connection, version) against every listen port boundary and Extra shape:
+	// they must fire whatever else the message carries
+	for _, port := range []uint16{0, 1, 1023, 1024, 6000, 65535} {
+		for _, e := range [][]byte{nil, good[:10], good[:33], good[:42], good, noGen} {
+			emitV(base, 1111, port, 25, e)
+			emitV(base, 5, port, 23, e)
+			emitV(base, 1111, port, 23, e)
+			emitV(base, 5, port, 25, e)
+			emitV(cfg(0, 0), 0, port, 0, e)
+			emitV(cfg(1<<32-1, 1<<31-1), 1<<32-1, port, 1<<31-1, e)
+		}
+	}
 	// 5. user agent length around maxlen=256 (the remark is padded)
 	for _, l := range []int{255, 256, 257, 300} {
 		ua := "skycoin:0.26.0(" + strings.Repeat("a", l-16) + ")"
@@ -393,6 +405,9 @@ func c25Gen(r *Rng, tier string, emit func(string)) {
 			ua = uaChars(r, r.Intn(20))
 		}
 		burn, ms, pr := uint32(r.Range(0, 12)), uint32(r.Range(1000, 40000)), uint8(r.Range(0, 8))
+		if r.Chance(30) {
+			burn, ms = uint32(r.Range(2, 12)), uint32(r.Range(1020, 1028))
+		}
 		var tail []byte
 		switch r.Intn(4) {
 		case 0:
@@ -418,7 +433,11 @@ func c25Gen(r *Rng, tier string, emit func(string)) {
 		case 3:
 			e = r.Bytes(r.Intn(120))
 		}
-		emitV(base, mirror, uint16(r.Range(0, 65535)), ver, e)
+		port := uint16(r.Range(0, 65535))
+		if r.Chance(30) {
+			port = []uint16{0, 1, 1023, 1024, 65535}[r.Intn(5)]
+		}
+		emitV(base, mirror, port, ver, e)
 	}
 
 	// 7. the gate: every state x id match x every kind; introductions that pass / fail Verify
